@@ -36,7 +36,7 @@ func (valdec arrayDecoder) Decode(dec *Decoder, p interface{}, tag byte) {
 		valdec.at.UnsafeSet(reflect2.PtrOf(p), valdec.empty)
 	case TagList:
 		length := valdec.at.Len()
-		count := dec.ReadInt()
+		count := dec.readCount()
 		array := reflect2.PtrOf(p)
 		dec.AddReference(p)
 		n := length
@@ -96,7 +96,7 @@ func (valdec byteArrayDecoder) copy(p interface{}, data []byte) {
 func (valdec byteArrayDecoder) Decode(dec *Decoder, p interface{}, tag byte) {
 	switch tag {
 	case TagBytes:
-		data := dec.UnsafeNext(dec.ReadInt())
+		data := dec.UnsafeNext(dec.readCount())
 		dec.Skip()
 		valdec.copy(p, data)
 		dec.AddReference(p)
@@ -105,7 +105,7 @@ func (valdec byteArrayDecoder) Decode(dec *Decoder, p interface{}, tag byte) {
 		valdec.copy(p, data)
 	case TagString:
 		if dec.IsSimple() {
-			data, _ := dec.readStringAsBytes(dec.ReadInt())
+			data, _ := dec.readStringAsBytes(dec.readCount())
 			dec.Skip()
 			valdec.copy(p, data)
 		} else {
